@@ -93,6 +93,11 @@ func equivPeriod(a, b model.TimePeriodType, path string) (bool, string) {
 			return false, path + ": end time lost"
 		}
 		tb, err2 := b.EndTime.GetTime()
+		if err1 != nil && *a.EndTime == *b.EndTime {
+			// a text the stack cannot convert ("", "never", a time with zone offset) is passed on as
+			// it is: the same text is the same value
+			return true, ""
+		}
 		if err1 != nil || err2 != nil {
 			return false, fmt.Sprintf("%s: unreadable end time (%v, %v)", path, err1, err2)
 		}
